@@ -20,7 +20,7 @@ RULE = RULE + _RS
 ASSUMPTIONS = ['pad of an operator with fewer paddings than modes raises RankMismatch (an exception, not a wrong tensor): outside the workload',
                'fill values 0, 1.5, -2 (exactly representable: bit-exact comparison on int-valued cores) and 0.3, -1.7e-3 (not representable in any binary format: compared to working precision of the operand dtype)']
 REQUIRED_REACH = ['_extras:cat', '_extras:pad', '_extras:diag', '_tt_base:TT.mprod', '_tt_base:TT.to_ttm', '_tt_base:TT.conj', '_tt_base:TT.clone']
-REQUIRED_COUNTS = {'history_value_checks': 200, 'cat': 1, 'pad/tensor': 1, 'pad/operator': 1, 'diag/tensor->operator': 1, 'diag/operator->tensor': 1, 'mprod/single': 1, 'mprod/list': 1,
+REQUIRED_COUNTS = {'history_value_checks': 200, 'cat': 1, 'cat/same-object-listed-twice': 5, 'pad/tensor': 1, 'pad/operator': 1, 'pad/operator/fewer-paddings-than-modes': 5, 'diag/tensor->operator': 1, 'diag/operator->tensor': 1, 'mprod/single': 1, 'mprod/list': 1,
                    'to_ttm': 1, 'conj': 1, 'clone': 1, 'exact_comparisons': 100}
 LINE_FUNCS = ['cat', 'pad', 'diag', 'TT.mprod']
 DT = ['f64', 'f64', 'f32', 'c128']
@@ -64,6 +64,16 @@ def cases(tier, seed):
             for value in (0.0, 1.5, -2.0, 0.3, -1.7e-3):
                 cs.append({'gen': 'pad', 'N': [rng.choice((1, 2, 3)) for _ in range(d)], 'M': [rng.choice((1, 2, 3)) for _ in range(d)],
                            'R': gens.rank_profile(rng, d, 'rand', 3), 'padding': [list(p) for p in pads], 'value': value, 'dtype': DT[ci % 4], 'vals': 'int'})
+    # pad operators: paddings for the trailing k < d modes only (defect #45: used to raise RankMismatch)
+    for d in range(2, 4):
+        for k in range(1, d):
+            widths = list(itertools.product(range(3), repeat=2))
+            combos = list(itertools.product(widths, repeat=k))
+            rng.shuffle(combos)
+            for ci, pads in enumerate(combos[:(12 if not T else 120)]):
+                for value in (0.0, 1.5, -2.0):
+                    cs.append({'gen': 'pad', 'N': [rng.choice((1, 2, 3)) for _ in range(d)], 'M': [rng.choice((1, 2, 3)) for _ in range(d)],
+                               'R': gens.rank_profile(rng, d, 'rand', 3), 'padding': [list(p) for p in pads], 'value': value, 'dtype': DT[ci % 4], 'vals': 'int'})
     # diag, mprod, to_ttm, conj, clone
     for i in range(2000 if not T else 30000):
         d = rng.randint(1, 4)
@@ -102,10 +112,16 @@ def run_cat(case, ctx, g):
     import torchtt
     dt = dn.dtype_of(case['dtype'])
     ts = [gens.make_tt(o['N'], o['R'], dt, case['vals'], g) for o in case['ops']]
+    if case['seed'] % 4 == 1 and len(ts) >= 2:
+        # the same OBJECT listed more than once (cat((a, a)), cat((a, b, a))): every occurrence is its own block
+        ts[-1] = ts[0]
+        ctx.count('cat/same-object-listed-twice')
     dim = case['dim']
     ctx.count('cat')
     key = 'cat/%dops' % len(ts)
-    what = 'cat dim=%d ops=%s %s' % (dim, [(o['N'], o['R']) for o in case['ops']], case['dtype'])
+    what = 'cat dim=%d ops=%s %s%s' % (dim, [(o['N'], o['R']) for o in case['ops']], case['dtype'], ' (last operand IS the first)' if ts[-1] is ts[0] and len(ts) > 1 else '')
+    if len(ts) > 1 and ts[-1] is ts[0] and list(ts[0].N) != [int(n_) for n_ in case['ops'][-1]['N']]:
+        ts[-1] = ts[0]      # (shapes along `dim` may differ between the generated operands: the repeated object brings its own)
     ref = torch.cat([dn.D(t) for t in ts], dim)
     bound = sum(gens.abs_bound(t) for t in ts)
     scale = sum(dn.s_rep(t) for t in ts)
@@ -168,6 +184,8 @@ def run_pad(case, ctx, g):
         interior, corner, mixed = pad_regions(N, full_pads, None)
     else:
         ctx.count('pad/operator')
+        if k < d:
+            ctx.count('pad/operator/fewer-paddings-than-modes')
         key = 'pad/operator/%s/%s' % (vclass, oclass)
         Mo = [M[i] + full_pads[i][0] + full_pads[i][1] for i in range(d)]
         No = [N[i] + full_pads[i][0] + full_pads[i][1] for i in range(d)]
